@@ -43,6 +43,48 @@ func RaceDir() string { return os.Getenv("VERIF_RACE_DIR") }
 var raceFrame = regexp.MustCompile(`^\s+(github\.com/gmrtd/gmrtd/[^\s(]+(?:\(\*?[A-Za-z0-9_]+\))?[^\s(]*)\(`)
 var anyFrame = regexp.MustCompile(`^\s+([A-Za-z0-9_./\-]+(?:\(\*?[A-Za-z0-9_]+\))?[^\s(]*)\(`)
 
+// Caller-owned data. A monitor that plays a client which treats what an accessor returned
+// (or a buffer it passed in, after the call returned) as ITS OWN memory does every access to
+// that memory inside a tiny function named verifCallerOwnedResult_<what> /
+// verifCallerOwnedInput_<what>. Such a function touches nothing but that memory and
+// goroutine-local values, and two clients never hand their slices to each other; so a race
+// report with that frame on one side means the library still reaches the memory (it handed
+// out, or kept, an alias of shared state): a violation attributed to the accessor <what>,
+// also when the other side is a second client of the same kind and the report has no gmrtd
+// frame at all.
+var ownedFrame = regexp.MustCompile(`^\s+verifharness/checks\.verifCallerOwned(Result|Input)_([A-Za-z0-9]+)\(`)
+
+// raceSide describes one access of a race report: the marker of a caller-owned access when
+// that frame is innermost to every gmrtd frame of the stack, else the innermost gmrtd frame.
+type raceSide struct {
+	lib   string // innermost gmrtd frame ("" when the access is not below library code)
+	kind  string // "Result" | "Input" when the access is a marked caller-owned access
+	owned string // <what> of the marker
+	n     int    // number of frames of the access stack seen before the verdict (0: stack not restored)
+	write bool   // the access is a write
+}
+
+func parseRaceSide(sec string) raceSide {
+	var s raceSide
+	if i := strings.Index(sec, " at 0x"); i >= 0 {
+		s.write = strings.Contains(strings.ToLower(sec[:i]), "write")
+	}
+	for _, line := range strings.Split(sec, "\n") {
+		if m := ownedFrame.FindStringSubmatch(line); m != nil {
+			s.kind, s.owned = m[1], m[2]
+			return s
+		}
+		if m := raceFrame.FindStringSubmatch(line); m != nil {
+			s.lib = m[1]
+			return s
+		}
+		if anyFrame.MatchString(line) {
+			s.n++
+		}
+	}
+	return s
+}
+
 // collectRaces parses the race detector logs and returns one violation per distinct
 // pair of innermost gmrtd frames; harnessOnly counts reports without any gmrtd frame.
 func collectRaces(dir string) (viols []Violation, reports int, harnessOnly []string) {
@@ -58,29 +100,53 @@ func collectRaces(dir string) (viols []Violation, reports int, harnessOnly []str
 			reports++
 			// sections are separated by blank lines; the first two are the two accesses
 			secs := strings.Split(blk, "\n\n")
-			var frames []string
+			var sides []raceSide
 			for i := 0; i < len(secs) && i < 2; i++ {
-				fr := ""
-				for _, line := range strings.Split(secs[i], "\n") {
-					if m := raceFrame.FindStringSubmatch(line); m != nil {
-						fr = m[1]
-						break
-					}
+				sides = append(sides, parseRaceSide(secs[i]))
+			}
+			for len(sides) < 2 {
+				sides = append(sides, raceSide{})
+			}
+			key, what := "", "data race reported by the Go race detector"
+			if sides[0].kind != "" || sides[1].kind != "" {
+				// an access to caller-owned memory races with the library or with another caller
+				// "me" is the caller-owned access; of two, the writing one (it took the memory
+				// for its own), else the alphabetically first
+				me, other := sides[0], sides[1]
+				if me.kind == "" || (other.kind != "" && (other.write && !me.write || other.write == me.write && other.owned < me.owned)) {
+					me, other = other, me
 				}
-				frames = append(frames, fr)
-			}
-			for len(frames) < 2 {
-				frames = append(frames, "")
-			}
-			if frames[0] == "" && frames[1] == "" {
-				// is there a gmrtd frame anywhere in the report (e.g. deeper in a stack)?
-				if !strings.Contains(blk, "github.com/gmrtd/gmrtd/") {
+				if other.lib == "" && other.kind == "" && other.n > 0 {
+					// the other access is unmarked harness code: the monitor itself is at fault
 					harnessOnly = append(harnessOnly, tail(blk, 1500))
 					continue
 				}
+				o := "unknown-stack"
+				switch {
+				case other.lib != "":
+					o = strings.TrimPrefix(other.lib, "github.com/gmrtd/gmrtd/")
+				case other.kind != "":
+					o = "another-caller-of-" + other.owned
+				}
+				if me.kind == "Result" {
+					key = "race:caller-owned-result-aliased:" + me.owned + ":" + o
+					what = "data race on memory that " + me.owned + " returned to its caller: the result aliases state that other users of the object still reach"
+				} else {
+					key = "race:caller-owned-input-retained:" + me.owned + ":" + o
+					what = "data race on a buffer the caller passed to " + me.owned + " and modified after the call had returned: the library kept the caller's buffer instead of a copy"
+				}
+			} else {
+				frames := []string{sides[0].lib, sides[1].lib}
+				if frames[0] == "" && frames[1] == "" {
+					// is there a gmrtd frame anywhere in the report (e.g. deeper in a stack)?
+					if !strings.Contains(blk, "github.com/gmrtd/gmrtd/") {
+						harnessOnly = append(harnessOnly, tail(blk, 1500))
+						continue
+					}
+				}
+				sort.Strings(frames)
+				key = "race:" + strings.TrimPrefix(frames[0], "github.com/gmrtd/gmrtd/") + "|" + strings.TrimPrefix(frames[1], "github.com/gmrtd/gmrtd/")
 			}
-			sort.Strings(frames)
-			key := "race:" + strings.TrimPrefix(frames[0], "github.com/gmrtd/gmrtd/") + "|" + strings.TrimPrefix(frames[1], "github.com/gmrtd/gmrtd/")
 			if seen[key] {
 				continue
 			}
@@ -89,7 +155,7 @@ func collectRaces(dir string) (viols []Violation, reports int, harnessOnly []str
 			if len(head) > 3000 {
 				head = head[:3000]
 			}
-			viols = append(viols, Violation{Key: key, What: "data race reported by the Go race detector", CaseIdx: -1, Case: "race-detector", Detail: map[string]any{"report": head}})
+			viols = append(viols, Violation{Key: key, What: what, CaseIdx: -1, Case: "race-detector", Detail: map[string]any{"report": head}})
 		}
 	}
 	return
